@@ -2,6 +2,7 @@ import A5.Model.GenericGeo
 import A5.Lemmas.RadialRoundTrip
 import A5.Lemmas.AngularRoundTrip2
 import A5.Lemmas.PolyTies
+import A5.Lemmas.RuntimeTriangles3
 import Mathlib.Tactic.Ring
 import Mathlib.Tactic.FieldSimp
 import Mathlib.Tactic.LinearCombination
@@ -408,5 +409,73 @@ theorem model_is_twin (v : V3) (st : SphTriangle) (ft : FaceTriangle) (fp : V2) 
     GP.toT (polyhedralInverse fp ft st) =
       GP.inverseBaryG GP.floatKit (GP.toT st.a) (GP.toT st.b) (GP.toT st.c) (faceToBarycentric fp ft) :=
   ⟨GP.polyhedralForward_tie v st ft, GP.polyhedralInverse_tie fp ft st⟩
+
+/-! ### T10-T13: the triangles the running library actually uses
+
+`A5.Gen.Runtime.SPH_TRIANGLES` holds the 240 spherical triangles (12 faces x 10 face triangles x plain / reflected) as the library computes
+them at start-up, as exact rationals; `tools/gen_runtime.py` regenerates the table on every run, compares it bit for bit with what
+the model computes and cross-checks every vertex with the library's own CRS snap.  T7-T9 above are stated for ANY triangle that
+satisfies their hypotheses; the theorems below discharge those hypotheses for every row of the table (a rational certificate
+evaluated in the kernel on all 240 rows, then lifted to the normalised real triangle), so the round trip is a theorem about the
+configuration the code runs with, not about a hypothetical one. -/
+
+open A5.RuntimeTriangles A5.RadialRoundTrip A5.AngularRoundTrip A5.Gen.Runtime in
+/-- **T10.** the table is complete - one row for every (face, face triangle, reflected) - and every row passes the certificate -/
+theorem runtime_table_complete :
+    SPH_TRIANGLES.length = 240 ∧ (∀ t ∈ SPH_TRIANGLES, TriOK t.2.2.2) ∧
+    ∀ t ∈ SPH_TRIANGLES, TriHyp (entryA t) (entryB t) (entryC t) :=
+  ⟨runtime_count, runtime_triangles_ok, runtime_hyp⟩
+
+open A5.RuntimeTriangles A5.RadialRoundTrip A5.AngularRoundTrip A5.Gen.Runtime in
+/-- **T11.** T8 (`polyhedral_roundtrip_real`) for every triangle of the table and EVERY point `slerp(a, slerp(b, c, q), s)`,
+`0 ≤ q ≤ 1`, `0 < s ≤ 1`, with no hypothesis left: exact round trip with `2 arcsin`, within 5e-16 with the code's `safe_acos` -/
+theorem runtime_roundtrip : ∀ t ∈ SPH_TRIANGLES, ∀ q s : ℝ, 0 ≤ q → q ≤ 1 → 0 < s → s ≤ 1 →
+    forwardPointR (entryA t) (entryB t) (entryC t) (slerpR (entryA t) (slerpR (entryB t) (entryC t) q) s)
+      = slerpR (entryB t) (entryC t) q ∧
+    inverseBaryR (entryA t) (entryB t) (entryC t)
+        (forwardBaryR (entryA t) (entryB t) (entryC t) (slerpR (entryA t) (slerpR (entryB t) (entryC t) q) s))
+      = slerpR (entryA t) (slerpR (entryB t) (entryC t) q) s ∧
+    lengthR (subR (inverseBarySafeR (entryA t) (entryB t) (entryC t)
+        (forwardBaryR (entryA t) (entryB t) (entryC t) (slerpR (entryA t) (slerpR (entryB t) (entryC t) q) s)))
+      (slerpR (entryA t) (slerpR (entryB t) (entryC t) q) s)) ≤ 5e-16 :=
+  A5.RuntimeTriangles.runtime_roundtrip
+
+open A5.RuntimeTriangles A5.RadialRoundTrip A5.AngularRoundTrip A5.Gen.Runtime in
+/-- **T12.** T7b (`angular_roundtrip`) for every triangle of the table -/
+theorem runtime_angular_roundtrip : ∀ t ∈ SPH_TRIANGLES,
+    (∀ q : ℝ, 0 ≤ q → q ≤ 1 →
+      edgeParamR (entryA t) (entryB t) (entryC t) (triAreaR (entryA t) (entryB t) (slerpR (entryB t) (entryC t) q)) = q) ∧
+    (∀ alpha : ℝ, 0 < alpha → alpha < triAreaR (entryA t) (entryB t) (entryC t) →
+      0 < edgeParamR (entryA t) (entryB t) (entryC t) alpha ∧ edgeParamR (entryA t) (entryB t) (entryC t) alpha < 1 ∧
+        triAreaR (entryA t) (entryB t)
+          (slerpR (entryB t) (entryC t) (edgeParamR (entryA t) (entryB t) (entryC t) alpha)) = alpha) :=
+  A5.RuntimeTriangles.runtime_angular_roundtrip
+
+open A5.RuntimeTriangles A5.RadialRoundTrip A5.AngularRoundTrip A5.Gen.Runtime A5.GP A5.PolyTies in
+/-- **T13.** T9 (`polyhedral_roundtrip_twin`: the generic twins of the code's forward / inverse at the reals, vertex snapping and
+two-branch `safe_acos` included) for every triangle of the table, every `q` in `[1e-4, 1 - 1e-4]` and `0 < s ≤ 1`; the only
+hypotheses left are the three no-snap conditions (no barycentric coordinate above `1 - POLY_SNAP_EPS`) -/
+theorem runtime_roundtrip_twin_mid : ∀ t ∈ SPH_TRIANGLES, ∀ q s : ℝ, 1 / 10 ^ 4 ≤ q → q ≤ 1 - 1 / 10 ^ 4 →
+    0 < s → s ≤ 1 →
+    ¬ (forwardBaryG realKit (toTR (entryA t)) (toTR (entryB t)) (toTR (entryC t))
+        (slerpG realKit (toTR (entryA t)) (slerpG realKit (toTR (entryB t)) (toTR (entryC t)) q) s)).1
+      > realKit.one - realKit.snapEps →
+    ¬ (forwardBaryG realKit (toTR (entryA t)) (toTR (entryB t)) (toTR (entryC t))
+        (slerpG realKit (toTR (entryA t)) (slerpG realKit (toTR (entryB t)) (toTR (entryC t)) q) s)).2.1
+      > realKit.one - realKit.snapEps →
+    ¬ (forwardBaryG realKit (toTR (entryA t)) (toTR (entryB t)) (toTR (entryC t))
+        (slerpG realKit (toTR (entryA t)) (slerpG realKit (toTR (entryB t)) (toTR (entryC t)) q) s)).2.2
+      > realKit.one - realKit.snapEps →
+    dotG (inverseBaryG realKit (toTR (entryA t)) (toTR (entryB t)) (toTR (entryC t))
+          (forwardBaryG realKit (toTR (entryA t)) (toTR (entryB t)) (toTR (entryC t))
+            (slerpG realKit (toTR (entryA t)) (slerpG realKit (toTR (entryB t)) (toTR (entryC t)) q) s)))
+        (inverseBaryG realKit (toTR (entryA t)) (toTR (entryB t)) (toTR (entryC t))
+          (forwardBaryG realKit (toTR (entryA t)) (toTR (entryB t)) (toTR (entryC t))
+            (slerpG realKit (toTR (entryA t)) (slerpG realKit (toTR (entryB t)) (toTR (entryC t)) q) s))) = 1 ∧
+    lengthG realKit (subG (inverseBaryG realKit (toTR (entryA t)) (toTR (entryB t)) (toTR (entryC t))
+          (forwardBaryG realKit (toTR (entryA t)) (toTR (entryB t)) (toTR (entryC t))
+            (slerpG realKit (toTR (entryA t)) (slerpG realKit (toTR (entryB t)) (toTR (entryC t)) q) s)))
+        (slerpG realKit (toTR (entryA t)) (slerpG realKit (toTR (entryB t)) (toTR (entryC t)) q) s)) ≤ 5e-16 :=
+  A5.RuntimeTriangles.runtime_roundtrip_twin_mid
 
 end A5.C15
